@@ -3,12 +3,10 @@
    (outside the known classes of Repo/Inv.v) and copy / move / remove / untrack (outside --name-only
    destination collisions). *)
 From Coq Require Import List Bool NArith Lia.
-From XV Require Import Base.Amap Base.Bytes Repo.Model Repo.Proofs Repo.Inv Glob.Match Repo.Ext Repo.ExtProofs.
+From XV Require Import Base.Amap Base.Bytes Repo.Model Repo.Proofs Repo.Inv Glob.Match Repo.Ext Repo.ExtProofs Repo.ExtShare.
 Import ListNotations.
 
 (* ---- the invariants of Repo/Inv.v give the hypotheses of Repo/ExtProofs.v ---------------------------------------- *)
-Lemma FI_wf_fs f : FI f -> wf_fs f.
-Proof. intros F i n H. exact (fi_bound F i n H). Qed.
 Lemma FI_objs_bounded f : FI f -> objs_bounded f.
 Proof.
   intros F a j H. destruct (fi_obj F a _ H) as (i & n & E & Hi & _). injection E as <-. exact (fi_bound F _ _ Hi).
@@ -36,40 +34,6 @@ Proof.
   - intros p i. rewrite Hw, Hi. apply W.
   - intros a e. rewrite Ho. intros H. destruct (O a e H) as (i & n & E & G & R). exists i, n. rewrite Hi. auto.
   - intros a1 a2 i. rewrite !Ho. apply I.
-Qed.
-
-Lemma recheck_dests_FI : forall ps r r' oc, FI (xfs r) -> recheck_dests r ps = (r', oc) -> FI (xfs r').
-Proof.
-  induction ps as [|p t IH]; intros r r' oc F; cbn [recheck_dests].
-  - intros E; injection E as <- <-; auto.
-  - destruct (find_path (recs (base r)) p) as [[e x]|]; [|intros E; injection E as <- <-; auto].
-    destruct (r_digest x) as [d|]; [|intros E; injection E as <- <-; auto].
-    pose proof (proj1 (rfc_spec (xfs r) p (cache_addr p d) (r_method x) F)) as F1.
-    destruct (recheck_from_cache (xfs r) p (cache_addr p d) (r_method x)) as [f1 [| |]]; cbn [fst] in F1.
-    + apply IH. exact F1.
-    + intros E; injection E as <- <-; exact F1.
-    + intros E; injection E as <- <-; exact F1.
-Qed.
-
-Lemma FI_wput_entry f s d en : FI f -> wget f s = Some en -> FI (wput (wdel f s) d en).
-Proof.
-  intros F G. destruct en as [i|a].
-  - apply FI_wput_file; [apply FI_wdel; auto|]. exact (fi_ws F s i G).
-  - apply FI_wput_link. apply FI_wdel; auto.
-Qed.
-
-Lemma move_loop_FI fl o : forall l f ups rechk f' res,
-  FI f -> move_loop fl o f l ups rechk = (f', res) -> FI f'.
-Proof.
-  induction l as [|[[e x] d] t IH]; intros f ups rechk f' res F; cbn [move_loop].
-  - intros E; injection E as <- <-. auto.
-  - assert (G : forall f1 u k, FI f1 -> move_loop fl o f1 t u k = (f', res) -> FI f') by (intros; eapply IH; eauto).
-    destruct (r_method x) eqn:SM; destruct (match m_as o with Some m => m | None => _ end) eqn:DM;
-      try (destruct (ws_exists f (r_path x)); apply G; auto using FI_wdel).
-    destruct (beqb (r_path x) d); [apply G; auto|].
-    destruct (fixed_mv_absent fl && negb (ws_exists f (r_path x))); [apply G; auto|].
-    destruct (wget f (r_path x)) as [en|] eqn:W; [|intros E; injection E as <- <-; auto].
-    destruct (m_no_recheck o); apply G; auto using FI_wdel, FI_wput_entry.
 Qed.
 
 Lemma materialise_FI fl : forall tg f f' oc, FI f -> materialise fl f tg = (f', oc) -> FI f'.
@@ -118,54 +82,7 @@ Qed.
 Lemma cache_removes_FI l : forall f, FI f -> FI (fold_left cache_remove l f).
 Proof. induction l as [|a t IH]; intros f F; cbn [fold_left]; auto using cache_remove_FI. Qed.
 
-(* ---- the records through move and untrack ---------------------------------------------------------------------------- *)
-Lemma wf_recs_same_paths b b' :
-  NoDup (keys (recs b')) -> next_ent b' = next_ent b ->
-  (forall k v', In (k, v') (recs b') -> exists v, In (k, v) (recs b) /\ r_path v' = r_path v) ->
-  wf_recs b -> wf_recs b'.
-Proof.
-  intros K' NX C [K P F]. constructor; auto.
-  - intros e1 x1 e2 x2 I1 I2 E. destruct (C _ _ I1) as (v1 & J1 & P1). destruct (C _ _ I2) as (v2 & J2 & P2).
-    eapply P; eauto. congruence.
-  - intros e x I. destruct (C _ _ I) as (v & J & _). rewrite NX. eauto.
-Qed.
-
-Lemma move_apply_wf fl o r l r' oc :
-  wf_fs (xfs r) -> wf_recs (base r) -> move_plan_ok r l -> move_apply fl o r l = (r', oc) -> wf_recs (base r').
-Proof.
-  intros Wf [K P F] [MI MN MJ MD MU MF]. unfold move_apply.
-  destruct (move_paths_spec l r K MD) as (K1 & F1 & N1 & C1 & L1).
-  set (r1 := fold_left move_path_one l r) in *.
-  assert (W1 : wf_recs (base r1)).
-  { constructor; auto.
-    - intros k1 v1 k2 v2 I1 I2 E. apply C1 in I1. apply C1 in I2.
-      destruct I1 as [(x1 & d1 & J1 & ->)|[N1' J1]], I2 as [(x2 & d2 & J2 & ->)|[N2' J2]].
-      + cbn in E. eapply MJ; eauto.
-      + exfalso. cbn in E. eapply (stored_false_no_record r d1); [eapply MN; eauto|exact J2|congruence].
-      + exfalso. cbn in E. eapply (stored_false_no_record r d2); [eapply MN; eauto|exact J1|congruence].
-      + eapply P; eauto.
-    - intros k v I. apply C1 in I. destruct I as [(x & d & J & ->)|[_ J]].
-      + apply MI in J. apply F in J. lia.
-      + apply F in J. lia. }
-  destruct (move_loop fl o (xfs r1) l [] []) as [f2 res] eqn:ML.
-  destruct res as [[ups rechk]|].
-  - destruct (set_methods_spec ups (base (set_xfs r1 f2))) as (K3 & F3 & N3 & L3 & B3 & C3); [exact K1|].
-    set (r3 := set_base (set_xfs r1 f2) (fold_left set_method ups (base (set_xfs r1 f2)))) in *.
-    assert (W3 : wf_recs (base r3)).
-    { apply (wf_recs_same_paths (base r1)); auto.
-      intros k v' I. destruct (B3 k v' I) as (v & J & (SP & _)). eauto. }
-    destruct (m_no_recheck o).
-    + intros E; injection E as <- <-. exact W3.
-    + intros E.
-      assert (Wf3 : wf_fs (xfs r3)).
-      { assert (X3 : xfs r3 = f2) by (unfold r3, xfs; cbn [base set_base]; rewrite F3; reflexivity).
-        rewrite X3. assert (Wf1 : wf_fs (xfs r1)) by (rewrite F1; auto).
-        pose proof (ws_only_frame _ _ Wf1 (move_loop_ws_only fl o _ _ _ _ _ _ ML)) as FR. destruct FR; auto. }
-      destruct (recheck_dests_spec _ _ _ _ Wf3 E) as (R4 & N4 & _).
-      apply (wf_recs_ext (base r3)); auto. lia.
-  - intros E; injection E as <- <-. apply (wf_recs_ext (base r1)); auto. cbn. lia.
-Qed.
-
+(* ---- the records through untrack (move: Repo/ExtShare.v) ---- *)
 Lemma wf_recs_filter b b' (p : N * frec -> bool) :
   recs b' = filter p (recs b) -> next_ent b' = next_ent b -> wf_recs b -> wf_recs b'.
 Proof.
@@ -196,24 +113,29 @@ Definition xclean (r : xrepo) (it : xitem) : bool :=
 
 (* the move command with the pre-check of the P45 fix either refuses (repository unchanged) or is the move *)
 Lemma move_cmd45_cases fl o s d r :
-  move_cmd45 fl o s d r = (r, Err) \/ move_cmd45 fl o s d r = move_cmd fl o s d r.
+  fixed_P3 fl = false -> move_cmd45 fl o s d r = (r, Err) \/ move_cmd45 fl o s d r = move_cmd fl o s d r.
 Proof.
-  unfold move_cmd45. destruct (move_plan s d r) as [oc|l]; [now right|].
+  intros P3. unfold move_cmd45. destruct (move_plan s d r) as [oc|l]; [now right|]. rewrite P3.
   destruct (fixed_P45 fl && move_uncommitted o r l); [now left|now right].
 Qed.
 
 Lemma move_uncommitted_refused_lemma fl o s d r l :
-  fixed_P45 fl = true -> move_plan s d r = MPlanned l -> move_uncommitted o r l = true ->
+  fixed_P3 fl = false -> fixed_P45 fl = true -> move_plan s d r = MPlanned l -> move_uncommitted o r l = true ->
   move_cmd45 fl o s d r = (r, Err).
-Proof. intros F P U. unfold move_cmd45. rewrite P, F, U. reflexivity. Qed.
+Proof. intros P3 F P U. unfold move_cmd45. rewrite P, P3, F, U. reflexivity. Qed.
 
 Lemma move_cmd45_is_move_lemma fl o s d r :
+  fixed_P3 fl = false ->
   (fixed_P45 fl = false \/ forall l, move_plan s d r = MPlanned l -> move_uncommitted o r l = false) ->
   move_cmd45 fl o s d r = move_cmd fl o s d r.
 Proof.
-  intros H. unfold move_cmd45. destruct (move_plan s d r) as [oc|l] eqn:P; [reflexivity|].
+  intros P3 H. unfold move_cmd45. destruct (move_plan s d r) as [oc|l] eqn:P; [reflexivity|]. rewrite P3.
   destruct H as [F|U]; [rewrite F; reflexivity|]. rewrite (U l eq_refl), andb_false_r. reflexivity.
 Qed.
+
+(* move_plan_ok only looks at the records, the directory records and the workspace paths *)
+Lemma move_plan_ok_set_xfs r f l : move_plan_ok r l -> move_plan_ok (set_xfs r f) l.
+Proof. intros [MI MN MJ MD]. constructor; auto. Qed.
 
 Lemma xstep_inv fl r it : INV (base r) -> xclean r it = true -> INV (base (fst (do_xitem fl r it))).
 Proof.
@@ -221,32 +143,31 @@ Proof.
   destruct it as [i|o s d|o s d|o ts|ts]; cbn [do_xitem xclean] in *.
   - apply negb_true_iff in C. destruct (item_spec (base r) i (conj F R) C) as (I & _).
     destruct (do_item (base r) i) as [b oc]. exact I.
-  - unfold copy_cmd. destruct (copy_plan o s d r) as [oc|plan sk] eqn:PL; [split; auto|].
+  - unfold copy_cmd3. destruct (copy_plan o s d r) as [oc|plan sk] eqn:PL; [split; auto|].
     apply nodupb_spec in C.
-    destruct (copy_apply o r plan sk) as [r' oc] eqn:E. cbn [fst].
-    destruct (copy_apply_shares o r plan sk r' oc Wf Wr C (fun c I => proj1 (copy_plan_pairs _ _ _ _ _ _ PL c I)) E) as (_ & _ & W' & _).
-    split; [|apply wf_recs_RI; auto].
-    unfold copy_apply in E.
-    destruct (copy_records_spec o plan r Wr C (fun c I => proj1 (copy_plan_pairs _ _ _ _ _ _ PL c I))) as (_ & F1 & _).
-    destruct (c_no_recheck o).
-    + injection E as <- _. change (fs (base ?x)) with (xfs x). rewrite F1. exact F.
-    + destruct (recheck_dests (fold_left (copy_records_one o) plan r) (map cd_path plan)) as [r2 oc2] eqn:RD. injection E as <- _.
-      change (fs (base r2)) with (xfs r2). eapply recheck_dests_FI; [|exact RD]. rewrite F1. exact F.
-  - destruct (move_cmd45_cases fl o s d r) as [E45|E45]; rewrite E45; [split; auto|].
-    unfold move_cmd. destruct (move_plan s d r) as [oc|l] eqn:PL; [split; auto|].
+    pose proof (fun c I => proj1 (copy_plan_pairs _ _ _ _ _ _ PL c I)) as A.
+    assert (G : forall r0 : xrepo, FI (xfs r0) -> recs (base r0) = recs (base r) -> wf_recs (base r0) ->
+                INV (base (fst (copy_apply o r0 plan sk)))).
+    { intros r0 F0 R0 W0. destruct (copy_apply o r0 plan sk) as [r' oc] eqn:E. cbn [fst].
+      assert (A0 : forall c, In c plan -> plan_acc (recs (base r0)) c) by (intros c I; rewrite R0; auto).
+      destruct (copy_apply_shares o r0 plan sk r' oc (FI_wf_fs _ F0) W0 C A0 E) as (_ & _ & W' & _).
+      split; [|apply wf_recs_RI; auto]. exact (copy_apply_FI o r0 plan sk r' oc F0 W0 C A0 E). }
+    destruct (fixed_P3 fl); [|apply G; auto].
+    destruct (copy_unavailable o r plan); [split; auto|].
+    destruct (share_pairs_spec plan (xfs r) F) as (FS & _).
+    apply G; auto. apply (wf_recs_ext (base r)); auto. cbn. lia.
+  - unfold move_cmd45. destruct (move_plan s d r) as [oc|l] eqn:PL.
+    { unfold move_cmd. rewrite PL. split; auto. }
     pose proof (move_plan_is_ok s d r l Wr PL) as OKP.
-    destruct (move_apply fl o r l) as [r' oc] eqn:E. cbn [fst].
-    split; [|apply wf_recs_RI; eapply move_apply_wf; eauto].
-    unfold move_apply in E. destruct Wr as [K P Fr]. destruct OKP as [MI MN MJ MD MU MF].
-    destruct (move_paths_spec l r K MD) as (K1 & F1 & _).
-    destruct (move_loop fl o (xfs (fold_left move_path_one l r)) l [] []) as [f2 res] eqn:ML.
-    assert (F2 : FI f2) by (eapply move_loop_FI; [|exact ML]; rewrite F1; exact F).
-    destruct res as [[ups rechk]|]; [|injection E as <- _; exact F2].
-    destruct (set_methods_spec ups (base (set_xfs (fold_left move_path_one l r) f2)) K1) as (_ & F3 & _).
-    destruct (m_no_recheck o).
-    + injection E as <- _. change (FI (fs (fold_left set_method ups (base (set_xfs (fold_left move_path_one l r) f2))))). rewrite F3. exact F2.
-    + change (fs (base r')) with (xfs r'). eapply recheck_dests_FI; [|exact E].
-      change (FI (fs (fold_left set_method ups (base (set_xfs (fold_left move_path_one l r) f2))))). rewrite F3. exact F2.
+    assert (G : forall r0 : xrepo, FI (xfs r0) -> wf_recs (base r0) -> move_plan_ok r0 l -> INV (base (fst (move_apply fl o r0 l)))).
+    { intros r0 F0 W0 OK0. destruct (move_apply fl o r0 l) as [r' oc] eqn:E. cbn [fst].
+      split; [exact (move_apply_FI fl o r0 l r' oc F0 W0 OK0 E)|apply wf_recs_RI; exact (move_apply_wf fl o r0 l r' oc (FI_wf_fs _ F0) W0 OK0 E)]. }
+    destruct (fixed_P3 fl).
+    + destruct (move_unavailable o r l); [split; auto|].
+      destruct (share_moves_spec l (xfs r) F) as (FS & _).
+      apply G; auto; [apply (wf_recs_ext (base r)); auto; cbn; lia|apply move_plan_ok_set_xfs; auto].
+    + destruct (fixed_P45 fl && move_uncommitted o r l); [split; auto|].
+      unfold move_cmd. rewrite PL. apply G; auto.
   - unfold remove_cmd. cbv zeta.
     match goal with |- context [match ?cands with Some _ => _ | None => _ end] => destruct cands as [l|] end; cbn [fst]; [|split; auto].
     split; [|apply RI_set_fs; exact R]. change (fs (base (set_xfs r ?f))) with f. apply cache_removes_FI. exact F.
@@ -322,6 +243,128 @@ Proof.
   intros X E. destruct (xreach_wf fl r X) as (Wf & Ob & Wr). exact (untrack_cmd_spec fl targets r r' oc Wf Ob Wr E).
 Qed.
 
+(* ---- the repair of P3 for every reachable repository ------------------------------------------------------------------------- *)
+Theorem copy_fixed_reachable fl o src dst r r' oc plan sk :
+  fixed_P3 fl = true -> xreach fl r ->
+  copy_plan o src dst r = CPlanned plan sk -> NoDup (map cd_path plan) -> copy_unavailable o r plan = false ->
+  copy_cmd3 fl o src dst r = (r', oc) ->
+  (forall a e, oget (xfs r) a = Some e -> oget (xfs r') a = Some e) /\
+  (forall a b, holds (xfs r) a b -> holds (xfs r') a b) /\
+  (forall a, oget (xfs r') a <> None -> oget (xfs r) a <> None \/
+     exists c dg, In c plan /\ r_digest (cs_rec c) = Some dg /\ a = cache_addr (cd_path c) dg) /\
+  forall c, In c plan -> copy_result3 o r r' oc c.
+Proof.
+  intros P3 X PL ND U E. destruct (xreach_INV fl r X) as [F R].
+  destruct (copy_cmd3_spec fl o src dst r r' oc plan sk P3 F (RI_wf_recs _ R) PL ND U E) as (A & B & C & _ & _ & D). auto.
+Qed.
+
+Theorem move_fixed_reachable fl o src dst r r' oc l :
+  fixed_P3 fl = true -> xreach fl r ->
+  move_plan src dst r = MPlanned l -> move_unavailable o r l = false ->
+  move_cmd45 fl o src dst r = (r', oc) ->
+  length (recs (base r')) = length (recs (base r)) /\
+  (forall a e, oget (xfs r) a = Some e -> oget (xfs r') a = Some e) /\
+  (forall a b, holds (xfs r) a b -> holds (xfs r') a b) /\
+  (forall a, oget (xfs r') a <> None -> oget (xfs r) a <> None \/
+     exists e x d dg, In (e, x, d) l /\ In dg (r_hist x) /\ a = cache_addr d dg) /\
+  (forall e x d, In (e, x, d) l -> move_result r r' e x d /\
+     forall dg b, In dg (r_hist x) -> holds (xfs r) (cache_addr (r_path x) dg) b ->
+       exists b', holds (xfs r') (cache_addr d dg) b' /\ strip_crlf b' = strip_crlf b) /\
+  (oc = Ok -> forall e x d, In (e, x, d) l -> ws_exists (xfs r') (r_path x) = false).
+Proof.
+  intros P3 X PL U E. destruct (xreach_INV fl r X) as [F R].
+  destruct (move_cmd45_spec3 fl o src dst r r' oc l P3 F (RI_wf_recs _ R) PL U E) as (A & B & C & D & _ & _ & G & H).
+  split; [exact A|]. split; [exact B|]. split; [exact C|]. split; [exact D|]. split; [exact G|exact H].
+Qed.
+
+Theorem copy_single_reachable fl o src dst r r' oc c sk dg b :
+  fixed_P3 fl = true -> xreach fl r ->
+  copy_plan o src dst r = CPlanned [c] sk -> copy_unavailable o r [c] = false ->
+  copy_cmd3 fl o src dst r = (r', oc) ->
+  r_digest (cs_rec c) = Some dg -> holds (xfs r) (cache_addr (r_path (cs_rec c)) dg) b ->
+  obj_exists (xfs r) (cache_addr (cd_path c) dg) = false ->
+  holds (xfs r') (cache_addr (cd_path c) dg) b /\ oget (xfs r) (cache_addr (cd_path c) dg) = None.
+Proof.
+  intros P3 X PL U E RD H NE. destruct (xreach_INV fl r X) as [F R].
+  exact (copy_cmd3_single fl o src dst r r' oc c sk dg b P3 F (RI_wf_recs _ R) PL U E RD H NE).
+Qed.
+
+(* ---- C19 as one statement with a class parameter ------------------------------------------------------------------------------
+   [C19_copy_at fl K]: for the command as the histories run it (copy_cmd3 fl), from every reachable repository, every planned
+   pair outside K ends with the destination's OWN cache address holding the committed content (bytes with the normal form
+   of the source's object: equal digests; the same bytes when the address is the source's or the command made the object),
+   and unless --no-recheck the destination reads them.  [C19_move_at fl K]: the same for every recorded version of a
+   moved entity.  The class of P3 follows the switch: *)
+Definition ext_differs (s d : path) : bool := negb (beqb (extension d) (extension s)).
+Definition K_cross_ext_fl (fl : flags) (s d : path) : bool := negb (fixed_P3 fl) && ext_differs s d.
+
+Definition C19_copy_at (fl : flags) (K : path -> path -> bool) : Prop :=
+  forall r o src dst plan sk r' oc,
+    xreach fl r -> copy_plan o src dst r = CPlanned plan sk -> NoDup (map cd_path plan) ->
+    copy_cmd3 fl o src dst r = (r', oc) -> oc <> Panic -> copy_unavailable o r plan = false ->
+    forall c dg b, In c plan -> K (r_path (cs_rec c)) (cd_path c) = false ->
+      r_digest (cs_rec c) = Some dg -> holds (xfs r) (cache_addr (r_path (cs_rec c)) dg) b ->
+      exists b', holds (xfs r') (cache_addr (cd_path c) dg) b' /\ strip_crlf b' = strip_crlf b /\
+                 (c_no_recheck o = false -> ws_read (xfs r') (cd_path c) = Some b').
+Definition C19_move_at (fl : flags) (K : path -> path -> bool) : Prop :=
+  forall r o src dst l r' oc,
+    xreach fl r -> move_plan src dst r = MPlanned l -> move_cmd45 fl o src dst r = (r', oc) -> oc = Ok ->
+    forall e x d dg b, In (e, x, d) l -> K (r_path x) d = false ->
+      In dg (r_hist x) -> holds (xfs r) (cache_addr (r_path x) dg) b ->
+      move_result r r' e x d /\ exists b', holds (xfs r') (cache_addr d dg) b' /\ strip_crlf b' = strip_crlf b.
+
+Lemma ext_differs_false s d : ext_differs s d = false -> extension d = extension s.
+Proof. unfold ext_differs. destruct (beqb_spec (extension d) (extension s)); [auto|discriminate]. Qed.
+
+Theorem copy_outside_class fl : C19_copy_at fl (K_cross_ext_fl fl).
+Proof.
+  intros r o src dst plan sk r' oc X PL ND E NP U c dg b I K RD H. unfold K_cross_ext_fl in K.
+  destruct (fixed_P3 fl) eqn:P3.
+  - destruct (copy_fixed_reachable fl o src dst r r' oc plan sk P3 X PL ND U E) as (_ & _ & _ & RES).
+    destruct (RES c I) as (e & y & _ & _ & G). destruct (G dg b RD H) as (b' & H' & N & RE).
+    exists b'. split; [exact H'|]. split; [exact N|]. intros NR. apply RE; auto.
+  - cbn in K. apply ext_differs_false in K. rewrite (copy_cmd3_as_is fl o src dst r P3) in E.
+    destruct (copy_shares_reachable fl o src dst r r' oc plan sk X PL ND E) as (_ & HO & RES).
+    destruct (RES c I) as (e & y & _ & _ & G). destruct (G dg RD K) as (AE & RE).
+    exists b. rewrite AE. split; [apply HO; exact H|]. split; [reflexivity|]. intros NR. apply RE; auto.
+Qed.
+
+Theorem move_outside_class fl : C19_move_at fl (K_cross_ext_fl fl).
+Proof.
+  intros r o src dst l r' oc X PL E OK e x d dg b I K ID H. unfold K_cross_ext_fl in K.
+  destruct (fixed_P3 fl) eqn:P3.
+  - destruct (move_unavailable o r l) eqn:U.
+    + rewrite (move_cmd45_refused3 fl o src dst r l P3 PL U) in E. injection E as _ <-. discriminate.
+    + destruct (move_fixed_reachable fl o src dst r r' oc l P3 X PL U E) as (_ & _ & _ & _ & RES & _).
+      destruct (RES e x d I) as (MR & G). split; [exact MR|]. exact (G dg b ID H).
+  - cbn in K. apply ext_differs_false in K.
+    destruct (move_cmd45_cases fl o src dst r P3) as [E45|E45]; rewrite E45 in E.
+    + injection E as _ <-. discriminate.
+    + destruct (move_count_reachable fl o src dst r r' oc l X PL E) as (_ & _ & HO & RES & _).
+      split; [exact (RES e x d I)|]. exists b. split; [|reflexivity].
+      rewrite (same_ext_same_addr d (r_path x) dg K). apply HO. exact H.
+Qed.
+
+Lemma copy_at_weaken fl (K K' : path -> path -> bool) :
+  (forall s d, K' s d = false -> K s d = false) -> C19_copy_at fl K -> C19_copy_at fl K'.
+Proof. intros W A r o src dst plan sk r' oc X PL ND E NP U c dg b I KF. apply (A r o src dst plan sk r' oc); auto. Qed.
+Lemma move_at_weaken fl (K K' : path -> path -> bool) :
+  (forall s d, K' s d = false -> K s d = false) -> C19_move_at fl K -> C19_move_at fl K'.
+Proof. intros W A r o src dst l r' oc X PL E OK e x d dg b I KF. apply (A r o src dst l r' oc); auto. Qed.
+
+Theorem full_when_fixed fl : fixed_P3 fl = true ->
+  C19_copy_at fl (fun _ _ => false) /\ C19_move_at fl (fun _ _ => false).
+Proof.
+  intros P3. split.
+  - apply (copy_at_weaken fl (K_cross_ext_fl fl)); [|apply copy_outside_class].
+    intros s d _. unfold K_cross_ext_fl. now rewrite P3.
+  - apply (move_at_weaken fl (K_cross_ext_fl fl)); [|apply move_outside_class].
+    intros s d _. unfold K_cross_ext_fl. now rewrite P3.
+Qed.
+
+Lemma K_cross_ext_empty_when_fixed_lemma fl s d : fixed_P3 fl = true -> K_cross_ext_fl fl s d = false.
+Proof. intros P3. unfold K_cross_ext_fl. now rewrite P3. Qed.
+
 (* reachable repositories exist and the class predicate is decidable: a run of a history *)
 Fixpoint xrun_clean (fl : flags) (r : xrepo) (h : list xitem) : bool :=
   match h with
@@ -332,4 +375,94 @@ Lemma xrun_reach fl h : forall r, xreach fl r -> xrun_clean fl r h = true -> xre
 Proof.
   induction h as [|it t IH]; intros r X C; cbn in *; auto.
   apply andb_true_iff in C. destruct C as (C1 & C2). apply IH; auto. now apply xr_step.
+Qed.
+
+(* ---- P3, the code as it is: concrete refutations of the statement without a class --------------------------------------------- *)
+Definition h_cross : list xitem := [XBase (UWrite s_a_txt s_hello); XBase (XTrack t_plain [s_a_txt])].
+Definition c_norecheck : copy_opts := {| c_as := None; c_cforce := false; c_no_recheck := true; c_name_only := false |}.
+Definition x_a_txt : frec := mk_frec s_a_txt (Some (6%N, 2%N)) (Some (digest_of B3 Auto s_hello)) [digest_of B3 Auto s_hello] Copy Auto.
+Lemma h_cross_reach fl : xrun_clean fl r0 h_cross = true -> xreach fl (run_xitems fl r0 h_cross).
+Proof. intros C. apply (xrun_reach fl h_cross r0); [apply xr_init|exact C]. Qed.
+
+Lemma cross_ext_copy_refuted_lemma : ~ C19_copy_at as_is (fun _ _ => false).
+Proof.
+  intros F.
+  pose (r := run_xitems as_is r0 h_cross).
+  pose (c := plan_pair r x_a_txt s_b_dat).
+  destruct (F r c_norecheck s_a_txt s_b_dat [c] false (fst (copy_cmd3 as_is c_norecheck s_a_txt s_b_dat r)) Ok
+              (h_cross_reach as_is eq_refl)) with (c := c) (dg := digest_of B3 Auto s_hello) (b := s_hello)
+    as (b' & (i & n & O & _) & _).
+  - vm_compute; reflexivity.
+  - constructor; [intros []|constructor].
+  - vm_compute; reflexivity.
+  - discriminate.
+  - reflexivity.
+  - now left.
+  - reflexivity.
+  - reflexivity.
+  - exists 1%N. eexists. vm_compute. repeat split; reflexivity.
+  - vm_compute in O. discriminate.
+Qed.
+
+Lemma cross_ext_move_refuted_lemma : ~ C19_move_at as_is (fun _ _ => false).
+Proof.
+  intros F.
+  pose (r := run_xitems as_is r0 h_cross).
+  destruct (F r m_plain s_a_txt s_b_dat [(2%N, x_a_txt, s_b_dat)] (fst (move_cmd45 as_is m_plain s_a_txt s_b_dat r)) Ok
+              (h_cross_reach as_is eq_refl)) with (e := 2%N) (x := x_a_txt) (d := s_b_dat) (dg := digest_of B3 Auto s_hello) (b := s_hello)
+    as (_ & b' & (i & n & O & _) & _).
+  - vm_compute; reflexivity.
+  - vm_compute; reflexivity.
+  - reflexivity.
+  - now left.
+  - reflexivity.
+  - now left.
+  - exists 1%N. eexists. vm_compute. repeat split; reflexivity.
+  - vm_compute in O. discriminate.
+Qed.
+
+
+(* ---- C04: copy and move never delete or alter a cache object (both values of every switch) -------------------------------------- *)
+Definition is_copy_or_move (it : xitem) : bool := match it with XCopy _ _ _ | XMove _ _ _ => true | _ => false end.
+
+Lemma kept_obj_read f f' a e :
+  FI f -> oget f a = Some e -> oget f' a = Some e -> (forall b, holds f a b -> holds f' a b) -> obj_read f' a = obj_read f a.
+Proof.
+  intros F O O' HO. destruct (fi_obj F a e O) as (i & n & -> & Hi & _).
+  assert (H : holds f a (i_bytes n)) by (exists i, n; auto).
+  rewrite (holds_obj_read _ _ _ H). exact (holds_obj_read _ _ _ (HO _ H)).
+Qed.
+
+Theorem copy_move_retain fl r it a e :
+  xreach fl r -> xclean r it = true -> is_copy_or_move it = true -> oget (xfs r) a = Some e ->
+  oget (xfs (fst (do_xitem fl r it))) a = Some e /\ obj_read (xfs (fst (do_xitem fl r it))) a = obj_read (xfs r) a.
+Proof.
+  intros X C M O. destruct (xreach_INV fl r X) as [F R]. pose proof (RI_wf_recs _ R) as Wr. pose proof (FI_wf_fs _ F) as Wf.
+  assert (SAME : oget (xfs r) a = Some e /\ obj_read (xfs r) a = obj_read (xfs r) a) by auto.
+  assert (KEPT : forall r' : xrepo, oget (xfs r') a = Some e -> (forall b, holds (xfs r) a b -> holds (xfs r') a b) ->
+                 oget (xfs r') a = Some e /\ obj_read (xfs r') a = obj_read (xfs r) a).
+  { intros r' O' HO. split; [exact O'|]. eapply kept_obj_read; eauto. }
+  destruct it as [i|o s d|o s d|o ts|ts]; try discriminate; cbn [do_xitem xclean] in *.
+  - destruct (copy_plan o s d r) as [oc|plan sk] eqn:PL.
+    { unfold copy_cmd3. rewrite PL. exact SAME. }
+    apply nodupb_spec in C.
+    destruct (fixed_P3 fl) eqn:P3.
+    + destruct (copy_unavailable o r plan) eqn:U.
+      * rewrite (copy_cmd3_refused fl o s d r plan sk P3 PL U). exact SAME.
+      * destruct (copy_cmd3 fl o s d r) as [r' oc] eqn:E. cbn [fst].
+        destruct (copy_cmd3_spec fl o s d r r' oc plan sk P3 F Wr PL C U E) as (KO & HO & _). apply KEPT; auto.
+    + rewrite (copy_cmd3_as_is fl o s d r P3). destruct (copy_cmd o s d r) as [r' oc] eqn:E. cbn [fst].
+      destruct (copy_cmd_shares o s d r r' oc plan sk Wf Wr PL C E) as (OB & HO & _). apply KEPT; auto.
+      unfold oget. rewrite OB. exact O.
+  - destruct (move_plan s d r) as [oc|l] eqn:PL.
+    { unfold move_cmd45, move_cmd. rewrite PL. exact SAME. }
+    destruct (fixed_P3 fl) eqn:P3.
+    + destruct (move_unavailable o r l) eqn:U.
+      * rewrite (move_cmd45_refused3 fl o s d r l P3 PL U). exact SAME.
+      * destruct (move_cmd45 fl o s d r) as [r' oc] eqn:E. cbn [fst].
+        destruct (move_cmd45_spec3 fl o s d r r' oc l P3 F Wr PL U E) as (_ & KO & HO & _). apply KEPT; auto.
+    + destruct (move_cmd45_cases fl o s d r P3) as [E45|E45]; rewrite E45; [exact SAME|].
+      destruct (move_cmd fl o s d r) as [r' oc] eqn:E. cbn [fst].
+      destruct (move_cmd_spec fl o s d r r' oc l Wf Wr PL E) as (_ & OB & HO & _). apply KEPT; auto.
+      unfold oget. rewrite OB. exact O.
 Qed.
